@@ -102,13 +102,25 @@ def check_function(chk, db, f, family, pos_name, needle_atom, hay_atom, rule="EX
     n = 0
     for conds, info in exits:
         val = classify_value(info.get("value"), pos_name)
-        if val not in ("npos", "pos"):
+        rterm = None
+        if val in ("other", "call") and info.get("value") is not None:
+            # a computed position (`return min(pos, size() - 1);`): it must be npos or lie inside the view
+            try:
+                rterm = P.simplify(T.to_term(info["value"], ctx))
+            except Exception:
+                rterm = None
+            if rterm is None or T.has_unknown(rterm):
+                continue
+            val = "computed"
+        if val not in ("npos", "pos", "computed"):
             continue
         n += 1
         chk.instance(rule)
         atom_sorts = {}
         for c in conds:
             T.atoms(c, atom_sorts)
+        if rterm is not None:
+            T.atoms(rterm, atom_sorts)
         for need in (pos_name, needle_atom, hay_atom):
             if need is not None:
                 atom_sorts.setdefault(need, "u")
@@ -133,9 +145,18 @@ def check_function(chk, db, f, family, pos_name, needle_atom, hay_atom, rule="EX
                     if val == "pos" and not (n_ == 0 and p_ <= s_) and family in ("find", "rfind"):
                         bad = ("returns pos although the needle is not empty or pos is past the end", m)
                         break
+                    if val == "computed":
+                        rv = T.evaluate(T.instantiate_sorts(rterm, sc), m)
+                        if rv is not None and rv.v != T.NPOS and not (0 <= rv.v < s_ or (family == "find" and rv.v == s_ and n_ == 0)):
+                            bad = ("returns the position %s although the view has %s character(s)" % (rv.v, s_), m)
+                            break
+                    if val == "pos" and family not in ("find", "rfind") and not p_ < s_:
+                        # the character searches answer with the position of a character of the view
+                        bad = ("returns pos although pos is not the position of a character of the view", m)
+                        break
                 if bad:
                     break
-        label = "%s :: early `return %s` at line %s" % (construct, "npos" if val == "npos" else pos_name, info.get("line"))
+        label = "%s :: early `return %s` at line %s" % (construct, "npos" if val == "npos" else (pos_name if val == "pos" else astx.show(info.get("value"), 30)), info.get("line"))
         chk.obligation(rule, label, None if unknown else (bad is None), evaluations=max(1, nm))
         if unknown:
             chk.unknown_instance(rule, label, "the path condition contains an unmodelled term")
